@@ -304,3 +304,9 @@ def _foundations(rep: Report, prog: Program) -> None:
 
     records_transparent(rep, "R2.7", prog, ["redress.policy.state:_RetryDecision", "redress.strategies:BackoffContext"])
     rep.floor("R2.7", 2)
+
+    rep.rule("R2.8", "time is read when it is needed: no memoised function or cached property in the policy layer reaches a clock or freezes an attribute that changes during the run (a remaining-time figure cached at the first failure would bound every later sleep)")
+    from .foundations import memo_is_pure
+
+    memo_is_pure(rep, "R2.8", prog, ("redress.policy", "redress.budget", "redress.circuit", "redress.sleep"))
+    rep.floor("R2.8", 1)
